@@ -11,6 +11,7 @@ import (
 	"os"
 	"reflect"
 	"strings"
+	"sync"
 	"time"
 
 	"github.com/pebbe/zmq4"
@@ -178,8 +179,14 @@ var nosaveMessages = map[string]struct{}{
 	"externaltrigger": {},
 }
 
+// configLock guards the global viper configuration store, which has no lock of its own: the client
+// updater's goroutine writes it in saveState while a source being started reads it in PrepareRun.
+var configLock sync.Mutex
+
 // saveState stores server configuration to the standard config file.
 func saveState(lastMessages map[string]interface{}) {
+	configLock.Lock()
+	defer configLock.Unlock()
 
 	lastMessages["___1"] = "DASTARD configuration file. Written and read by DASTARD."
 	lastMessages["___2"] = "Human intervention by experts is permitted but not expected."
